@@ -73,6 +73,19 @@ CHECKS = {
              'must be valid, no edge may raise; invalid HP lattice must be rejected. ~25 M transitions quick.',
         note='HP floats are read through their 13-decimal string (12 from 512 deg, where float64 has no 13th decimal).',
         design='§5/C08'),
+    'C09': dict(
+        text='History exploration: every ordered sequence of calls (alphabet of 54 representative public calls incl. caller-owned '
+             'lists/arrays, covariance and both directions of every transformation) up to depth 2 (quick) / 3 (thorough), each '
+             'history in a forked pristine interpreter; per transition: write barrier silent, deep snapshot of all 140+ '
+             'constants unchanged, arguments unchanged, result bit-identical to the pristine-interpreter reference; the set of '
+             'reachable library states closes at one state. Schedule exploration: all unordered pairs of the 15-call '
+             'shared-object seam as two real threads under a deterministic scheduler, every interleaving with <= 1 '
+             'preemption (<= 2 on structural pairs; 3 threads and opcode granularity in thorough), each execution checked '
+             'like a sequential one.',
+        note='Scheduling points = line events in transform/constants/coord/statistics plus any module whose data the '
+             'sequential pass saw change; 2-3 threads, <= 2 preemptions; larger thread counts by the commutation argument in DESIGN.md.',
+        technique='bounded exhaustive enumeration of call histories and of thread schedules (iterative context bounding) on the real code',
+        design='§5/C09'),
     'C10': dict(
         text='Every C01 state and its grid2geo image: point scale factor and grid convergence against '
              'k=|dz/dzeta|/(nu cos phi), gamma=arg(dz/dzeta) of the exact projection for the requested ellipsoid and '
@@ -80,6 +93,13 @@ CHECKS = {
         note='Sign convention validated against a finite difference of the oracle image of the meridian; float64 oracle '
              'validated against mpmath at run time.',
         design='§5/C10'),
+    'C12': dict(
+        text='Explicit-state BFS over angle objects: 18 leaf values x 5 classes, operators + - (and reflected), unary -, abs, '
+             '*k, k*, /k, %k, round(n), == != < > against every leaf, depth 2 over the full alphabet (3 on a 6-value '
+             'sub-alphabet; 3 over the full alphabet in thorough: 80 M transitions), plus one depth-6 expression evaluated '
+             'under all 5^7 assignments of classes to its leaves; oracle = the same operator on the .dec() floats.',
+        note='Reference is IEEE float arithmetic on the operands; magnitudes kept below 720 deg.',
+        design='§5/C12'),
     'C11': dict(
         text='Complete enumeration of a finite space: all 120 Transformation constants, all 59 forward/reverse '
              'pairs, all 384 ITRF triples compared in exact rational arithmetic, an IERS tuple lattice, and an '
